@@ -7,9 +7,28 @@ import (
 )
 
 type ZstdReader struct {
-	Body io.ReadCloser // underlying Response.Body
-	zr   *zstd.Decoder // lazily-initialized zstd reader
-	zerr error         // sticky error
+	Body io.ReadCloser  // underlying Response.Body
+	zr   *zstd.Decoder  // lazily-initialized zstd reader
+	zerr error          // sticky error
+	src  *bodyErrReader // what zr reads from
+}
+
+// bodyErrReader remembers a read error of the body other than io.EOF.
+// zstd.Decoder turns an io.ErrUnexpectedEOF of its source that falls between
+// two frames (or before the first one) into a clean io.EOF, so a body that
+// breaks off there - short of its declared Content-Length - would be handed
+// out as if it were complete.
+type bodyErrReader struct {
+	r   io.Reader
+	err error
+}
+
+func (b *bodyErrReader) Read(p []byte) (int, error) {
+	n, err := b.r.Read(p)
+	if err != nil && err != io.EOF {
+		b.err = err
+	}
+	return n, err
 }
 
 func NewZstdReader(body io.ReadCloser) *ZstdReader {
@@ -21,13 +40,19 @@ func (zr *ZstdReader) Read(p []byte) (n int, err error) {
 		return 0, zr.zerr
 	}
 	if zr.zr == nil {
-		zr.zr, err = zstd.NewReader(zr.Body)
+		zr.src = &bodyErrReader{r: zr.Body}
+		zr.zr, err = zstd.NewReader(zr.src)
 		if err != nil {
 			zr.zerr = err
 			return 0, err
 		}
 	}
-	return zr.zr.Read(p)
+	n, err = zr.zr.Read(p)
+	if err == io.EOF && zr.src.err != nil {
+		err = zr.src.err
+		zr.zerr = err
+	}
+	return n, err
 }
 
 func (zr *ZstdReader) Close() error {
